@@ -12,11 +12,18 @@ CLAIMS = {
         "note": NOTE_COMMON + "Modelled, not verified: the generic maps as association lists (their laws are C14).",
         "technique": TECH,
     },
+    "C16": {
+        "category": "proof",
+        "design_ref": "DESIGN.md §5 C16",
+        "text": "Full: c16_try_new_iff/_ok/_err and c16_triple (success iff argument count = arity, error carries both numbers), c16_resolve_ok + c16_sat_bound (verdict of the predicate on the bound values in argument order, exactly one invocation on exactly those values), c16_sat_unbound (first unbound key reported), c16_no_call (an error result implies an empty invocation log), c16_error_is_unbound, and totality of the built-in check functions at matching arity (string, matrix, table). The model is compared with the real Constraint API on 30k (quick) records including a recording predicate whose invocation log is part of the record.",
+        "note": NOTE_COMMON + "PGPredicate's check is covered by the port-graph stages once claimed; the predicate closure is modelled as a pure function returning Option (none = panic).",
+        "technique": TECH,
+    },
 }
 
 NOT_APPLICABLE = [
     {"property_id": p, "reason": "not yet claimed in this round: model / theorems / correspondence stage under construction (see DESIGN.md §7 build order); no technique switch intended"}
-    for p in ["C01", "C02", "C03", "C04", "C05", "C06", "C07", "C08", "C09", "C10", "C11", "C12", "C14", "C15", "C16", "C17"]
+    for p in ["C01", "C02", "C03", "C04", "C05", "C06", "C07", "C08", "C09", "C10", "C11", "C12", "C14", "C15", "C17"]
 ]
 
 NOTES = "See DESIGN.md. Every check re-checks its Lean theorems (lake build + #print axioms audit), rebuilds the harness against /repo's working tree, runs the correspondence for the stages in the property's cone and evaluates the property's executable oracle on the implementation's outputs."
